@@ -16,17 +16,37 @@ THEOREMS = [
 ]
 TRUSTED_BASE = [
     "Lean 4.33 kernel; axioms propext, Classical.choice, Quot.sound only (audited per theorem on every run)",
-    "the closed form tSplineClosed is proved (over R) equal to Tmin + integral of the log-linear conductivity; at Float "
-    "it is executed with the C library's exp/log",
+    "the closed form tSplineClosed is proved (over R) equal to Tmin + integral of the log-linear conductivity; the "
+    "reference value is that closed form evaluated with Python's decimal module at 60 digits (exp/ln of decimal are "
+    "trusted); the model's own execution at Float (C library exp/log) is compared with it where well conditioned",
     "QUADPACK quad (used by the implementation) is accurate to 1e-7 relative on these smooth integrands; FITPACK order-1 "
     "spline = linear interpolation of log K",
 ]
 ASSUMPTIONS = ["strictly increasing knots, positive conductivities (1e-6 .. 1e6), positive minimum transmissivity",
                "levels at or below the highest knot (above it the code raises NotImplementedError, outside the property)"]
 RULE = ("knot sets of 2-8 knots with conductivities over 12 orders of magnitude x levels below/at the lowest knot, on "
-        "knots, between knots, at the highest knot; the implementation's value against the closed form at Float within "
-        "1e-6 relative; scalar against array arguments bit for bit; monotonicity on sorted levels; non-trivial = level "
+        "knots, between knots, at the highest knot, a quarter of the sets with two adjacent conductivities equal to "
+        "1e-16..1e-7 relative; the implementation's value against the closed form (60 digits) within 1e-6 relative; scalar against array arguments bit for bit; monotonicity on sorted levels; non-trivial = level "
         "strictly above the lowest knot; distinct by (knots, level)")
+
+
+def closed_form_decimal(zs, ks, tmin, z):
+    """The closed form proved in Lean (tSplineClosed), evaluated with 60 significant digits: the reference where
+    the double-precision evaluation of the same formula is ill-conditioned (nearly equal adjacent conductivities)."""
+    import decimal
+    D = decimal.Decimal
+    with decimal.localcontext() as c:
+        c.prec = 60
+        t = D(tmin)
+        z = D(z)
+        for (z0, k0), (z1, k1) in zip(zip(zs, ks), list(zip(zs, ks))[1:]):
+            z0, k0, z1, k1 = D(z0), D(k0), D(z1), D(k1)
+            if z <= z0:
+                break
+            up = min(z, z1)
+            q = (k1.ln() - k0.ln()) / (z1 - z0)
+            t += k0 * (up - z0) if q == 0 else ((k0.ln() + q * (up - z0)).exp() - k0) / q
+        return float(t)
 
 
 def run(ctx):
@@ -34,13 +54,25 @@ def run(ctx):
     import spowtd.transmissivity as tm
     warnings.simplefilter("ignore")
     nsets = 40 if ctx.tier == "quick" else 800
-    ob = "SplineTransmissivity = model tSplineClosed at Float (1e-6 relative)"
+    ob = "SplineTransmissivity = model tSplineClosed (closed form, 60 digits) within 1e-6 relative"
     for _ in range(nsets):
         zs, ks = hyd.gen_knots(ctx.rng, nmin=2, nmax=8, positive=True)
         if ctx.rng.random() < 0.2:
             i = ctx.rng.randrange(len(ks) - 1)
             ks[i + 1] = ks[i]                 # a segment of constant conductivity
+        near_tie = False
+        if ctx.rng.random() < 0.25:
+            # nearly equal adjacent conductivities (a calibration that has almost converged to a uniform layer,
+            # or the same number typed with different rounding)
+            near_tie = True
+            i = ctx.rng.randrange(len(ks) - 1)
+            eps = ctx.rng.choice([-1, 1]) * 10 ** ctx.rng.uniform(-16, -7)
+            ks[i + 1] = float(np.nextafter(ks[i], np.inf)) if ctx.rng.random() < 0.2 else ks[i] * (1.0 + eps)
+            if ctx.rng.random() < 0.5 and len(ks) > 2:
+                ks[i], ks[i + 1] = ks[i] * 1e3, ks[i + 1] * 1e3        # a conductive layer among tight ones
         tmin = 10 ** ctx.rng.uniform(-3, 3)
+        if near_tie:
+            tmin = 10 ** ctx.rng.uniform(-6, -1)
         if ctx.rng.random() < 0.3:
             tmin = ctx.rng.randint(1, 50)      # as typed in a parameter file: `minimum_transmissivity_m2_d: 7`
         T = tm.SplineTransmissivity(list(zs), list(ks), tmin)
@@ -60,8 +92,27 @@ def run(ctx):
             ctx.violation("impl-violation", "c15Holds", {"input": inp0, "impl": err, "oracle": {
                 "name": "c15Holds", "result": False, "witness": {"exception": err}}})
             continue
-        m = [h2f(v) for v in ctx.driver.call("tspline.f", {
+        # reference: the closed form proved in Lean, evaluated with 60 digits (the double-precision evaluation of the
+        # same formula cancels badly one ulp above a knot and for nearly equal adjacent conductivities)
+        m = [closed_form_decimal(zs, ks, tmin, z) for z in levels]
+        if near_tie:
+            ctx.count("knot_sets_with_nearly_equal_adjacent_conductivities")
+        mf = [h2f(v) for v in ctx.driver.call("tspline.f", {
             "knots": [[f2h(z), f2h(k)] for z, k in zip(zs, ks)], "tmin": f2h(float(tmin)), "zs": [f2h(z) for z in levels]})]
+
+        def well_conditioned(z):
+            for (z0, k0), (z1, k1) in zip(zip(zs, ks), list(zip(zs, ks))[1:]):
+                if z <= z0:
+                    break
+                if k0 != k1 and abs(np.log(k1 / k0)) * (min(z, z1) - z0) / (z1 - z0) < 1e-4:
+                    return False
+            return True
+        wc = [i for i, z in enumerate(levels) if well_conditioned(z)]
+        ob_f = "model tSplineClosed executed at Float = the same closed form at 60 digits (1e-6), well-conditioned levels"
+        same_f = all(abs(mf[i] - m[i]) <= 1e-6 * max(abs(m[i]), tmin) for i in wc)
+        ctx.obligation(ob_f, same_f)
+        if not same_f:
+            ctx.corr_break(ob_f, {"input": dict(inp0, levels=levels), "float": mf, "decimal": m})
         wit = None
         for z, s, a, mv in zip(levels, scal, arr, m):
             ctx.case(("c15", tuple(zs), tuple(ks), z), z > lo)
@@ -96,5 +147,9 @@ def replay(ctx, doc):
         "knots": [[f2h(z), f2h(k)] for z, k in zip(inp["zeta_knots_mm"], inp["K_knots_km_d"])],
         "tmin": f2h(inp["minimum_transmissivity_m2_d"]), "zs": [f2h(z) for z in inp["levels"]]})]
     got = [float(T(z)) for z in inp["levels"]]
-    print("impl:", got[:6], "closed form:", m[:6])
-    return all(abs(a - b) <= 1e-6 * max(abs(b), 1e-300) for a, b in zip(got, m))
+    d = [closed_form_decimal(inp["zeta_knots_mm"], inp["K_knots_km_d"], inp["minimum_transmissivity_m2_d"], z)
+         for z in inp["levels"]]
+    print("impl:", got[:6], "closed form at Float:", m[:6], "at 60 digits:", d[:6])
+    tmin = inp["minimum_transmissivity_m2_d"]
+    return (all(abs(a - b) <= 1e-6 * max(abs(b), tmin) for a, b in zip(got, d))
+            and all(b >= a - 1e-7 * max(abs(a), tmin) for a, b in zip(got, got[1:])))
